@@ -365,7 +365,7 @@ def gen_multi(rng, nsteps):
         elif r < 0.20 and 4 <= k < 7: ops.append('xdisc %d' % k)
         elif r < 0.23 and k < 4: ops += ['sel %d' % k, 'close']
         elif r < 0.25 and k == 7: ops.append('sstop')
-        elif r < 0.27: ops.append('teardown'); active = []
+        elif r < 0.27: ops.append(rng.choice(['teardown', 'passdown', 'passdown'])); active = []
     ops.append('pass')
     for k in active:      # every session shows its own history at the end
         h = hx('history\r\n')
@@ -443,6 +443,9 @@ def gen_nested(rng):
         r = rng.random()
         if r < 0.15: ops.append('pass')
         elif r < 0.25: ops.append('depth %d' % rng.randrange(4))
+    if rng.random() < 0.25:       # the host shuts down with whatever the handlers and the client's exit queued
+        ops.append(rng.choice(['teardown', 'passdown']))
+        return ops
     ops.append('pass')
     if where in 'dr' or rng.random() < 0.5:
         ops.append(send(b'history\r\n'))
@@ -466,6 +469,11 @@ def gen(rng, tier):
     yield ['tconn', 'tend', 'tsend']
     yield ['open 0', 'recv ' + hx('exit\r\n'), 'teardown', 'open 0', 'recv ' + hx('pwd\r\n')]
     yield ['xconn 4', 'xrecv 4 ' + hx('exit\r\n'), 'teardown']
+    # a client's exit / a handler's endSession(), then the services are destroyed before the disconnect task ran
+    yield ['xconn 4', 'xrecv 4 ' + hx('exit\r\n'), 'passdown', 'open 0']
+    yield ['xconn 6', 'xconn 5', 'open 1', 'recv ' + hx('exit\r\n'), 'xrecv 6 ' + hx('exit\r\n'), 'xrecv 5 ' + hx('pwd\r\n'), 'passdown', 'xconn 6']
+    yield ['mkfunc e', 'mount 0 1 ' + hx('p'), 'xconn 6', 'xrecv 6 ' + hx('p\r\n'), 'teardown', 'open 0']
+    yield ['mkfunc e', 'mount 0 1 ' + hx('p'), 'xconn 4', 'xrecv 4 ' + hx('p;exit\r\n'), 'passdown']
     # re-entrant use: '!!' re-run of a shorter line while a handler feeds a key; a stored '!!' line
     yield ['depth 0', 'mkfunc f:' + hx('x'), 'mount 0 1 ' + hx('p'), 'open 0', 'recv ' + hx('p\r\n'), 'depth 1', 'recv ' + hx('!!     \r\n')]
     yield ['depth 1', 'mkfunc f:' + hx('\r\n!!'), 'mount 0 1 ' + hx('p'), 'open 0', 'recv ' + hx('p\r\n'), 'recv ' + hx('history\r\n'), 'recv ' + hx('!!\r\n')]
@@ -513,7 +521,7 @@ RULE = ('op files from props/C13/plugin.py gen(): shell sessions over random nod
         'history walks, history references with boundary/huge/negative/malformed integers, exit sequences, loop passes), '
         'hostile byte streams, telnet/raw-TCP byte streams in random segmentations, several interleaved sessions on one terminal '
         '(4 recording connections, 2 telnet clients, 1 raw-TCP client, the stdio service; connects/disconnects/reconnects, exit, '
-        'teardown), command handlers that act on their own session while the command executes (send, feed keys/lines incl. Enter, '
+        'teardown without draining, teardown inside the loop pass that runs the exit tasks), command handlers that act on their own session while the command executes (send, feed keys/lines incl. Enter, '
         '!!, !n, exit into the same session to nesting depth 0-3, end the session; histories near the 20-line limit), directed built-in command cases over cyclic trees and deleted nodes, direct SplitCmdline calls; non-trivial = '
         'the model run takes a mid-line edit, a history walk, a history reference, a full-history store, tree/user/exit command, '
         'a cycle/deleted-node branch of a built-in, output from at least two sessions, a split with >= 2 arguments or a failure, '
@@ -530,7 +538,6 @@ TRUSTED = ['model lean/TboxModel/C13/Model.lean is hand-written from modules/ter
 ASSUMPTIONS = ['the host program never deletes the root node',
                'command handlers act on their own session only through Session::send/endSession and Terminal::onRecvString (scripted in the '
                'harness), nest to a bounded depth, do not modify the node tree and do not delete the session',
-               'the host does not destroy Telnetd/TcpRpc while a disconnect task queued by a handler\'s endSession() is pending',
                'isprint/islower behave as in the C locale (the scanner table is dumped under the harness locale)',
                'stdio segments are at most 512 bytes (one read per loop pass); pipe writes of the service never block',
                'memory safety below index logic is observed by ASan/UBSan on the implementation only']
@@ -541,8 +548,8 @@ LEVEL_TEXT = ('Lean 4 theorems over a hand-written model of the terminal shell (
               'contract) plus the key scanner table dumped from the running code and checked by decide; model tied to the code on every run by '
               'differential execution (ASan+UBSan) through recording connections, the real telnet/raw-TCP/stdio services and direct calls')
 LEVEL_NOTE = ('trusted: Lean kernel, hand-written model + differential tie (coverage bounded by the generator, measured in evidence); the model '
-              'describes the tree with patches/C13-01..09 applied - on a tree without 08/09 the check reports the cursor std::out_of_range and the '
-              'history-command recursion under re-entrant use')
+              'describes the tree with patches/C13-01..10 applied - on a tree without 10 the check reports the use-after-free of a '
+              'disconnect task that outlives its Telnetd/TcpRpc')
 TECHNIQUE = 'Lean 4 refinement/invariant proofs over an executable model + generated scanner table + model/implementation correspondence check'
 DESIGN_REF = 'DESIGN.md §6 C13'
 
